@@ -41,13 +41,17 @@ static void emit_keys(void)
 	for (size_t k = 0; k < nkeys; k++) { if (k) fputc(',', o); nd_inst(o, keys[k]); }
 	fputs("]", o);
 }
+static int quiet;	/* lengths mode: keys, input and output are not printed, only whether the call came back */
 static void do_sort(const unsigned *idx, size_t n, int ev)
 {
 	static echs_instant_t ia[8192]; static echs_event_t ea[8192];
+	if (quiet) { fprintf(o, "{\"e\":\"Sort\",\"kind\":\"%s\",\"keys\":[],\"in\":[],\"n\":%zu", ev ? "event" : "instant", n); fflush(o); }
+	else {
 	fprintf(o, "{\"e\":\"Sort\",\"kind\":\"%s\",", ev ? "event" : "instant"); emit_keys();
 	fputs(",\"in\":[", o);
 	for (size_t k = 0; k < n; k++) fprintf(o, "%s%u", k ? "," : "", idx[k] + 1);
 	fputs("]", o);
+	}
 	if (ev) {
 		/* the other fields of an event are filled with values that have nothing to do with the position in the input (a
 		 * permutation for the oid, arbitrary durations and states): an ordering that looks at anything but the start shows */
@@ -71,7 +75,7 @@ static void do_sort(const unsigned *idx, size_t n, int ev)
 	}
 	if (nd_crashed) { fputs(",\"crash\":true}\n", o); return; }
 	fputs(",\"out\":[", o);
-	for (size_t k = 0; k < n; k++) {
+	if (!quiet) for (size_t k = 0; k < n; k++) {
 		if (ev) fprintf(o, "%s[%d,%llu]", k ? "," : "", key_of(ea[k].from), (unsigned long long)(uintptr_t)ea[k].oid);
 		else fprintf(o, "%s%d", k ? "," : "", key_of(ia[k]));
 	}
@@ -105,6 +109,19 @@ int main(int argc, char *argv[])
 	o = stdout; static char obuf[1 << 20]; setvbuf(o, obuf, _IOFBF, sizeof(obuf));
 	nd_guard_init();
 	static unsigned idx[8192];
+	if (argc > 4 && !strcmp(argv[1], "lengths")) {
+		/* drv_sort lengths <seed> <lo> <hi>: every length lo..hi, events and instants, a random and a nearly sorted input each:
+		 * meant for the sanitizer build (buffers of the merge change with the length); one line per call, nothing but the length */
+		quiet = 1;
+		for (size_t n = strtoul(argv[3], 0, 10); n <= strtoul(argv[4], 0, 10) && n < 8192; n++) for (unsigned pat = 0; pat < 5; pat += 4) {
+			size_t nk = pat ? (n ? n : 1) : 1 + nd_rnd(n ? n : 1);
+			mkkeys(nk > 4096 ? 4096 : nk, 0);
+			pattern(idx, n, pat, nk > 4096 ? 4096 : nk);
+			do_sort(idx, n, 1); do_sort(idx, n, 0);
+		}
+		fflush(o);
+		return 0;
+	}
 	size_t maxlen = thorough ? 300 : 70;
 	/* every length 0..maxlen x key alphabets 1,2,3,sqrt n,n x patterns */
 	for (size_t n = 0; n <= maxlen; n++) {
@@ -151,6 +168,13 @@ int main(int argc, char *argv[])
 		size_t nk = nd_rnd(3) ? 1 + nd_rnd(n) : 2 + nd_rnd(60);
 		mkkeys(nk, nd_rnd(2));
 		pattern(idx, n, nd_rnd(2) ? 0 : nd_rnd(6), nk);
+		do_sort(idx, n, 1);
+	}
+	/* thorough: every length up to 4200 once, judged in full */
+	if (thorough) for (size_t n = 301; n <= 4200; n++) {
+		size_t nk = nd_rnd(2) ? 2 + nd_rnd(60) : 1 + nd_rnd(n);
+		mkkeys(nk > 2048 ? 2048 : nk, 0);
+		pattern(idx, n, nd_rnd(2) ? 0 : 4, nk > 2048 ? 2048 : nk);
 		do_sort(idx, n, 1);
 	}
 	fflush(o);
